@@ -456,6 +456,452 @@ theorem requestUnknown_records (cfg : Cfg) (now : Nat) (force : Bool) (known sus
           exact h3
         · rw [if_neg c2]; exact ih lr hn' hk' h3
 
+/-! ### messages handled while a poll round is under way (fix 55c208f) -/
+
+/-- the capability a reader gets for `k` (a stored capability without data reads as none) -/
+def capOf (s : St) (k : String) : Option Cap := (lookup s.peers k).bind fun r => (reload r).cap
+
+def norm (c : Option Cap) : Option Cap :=
+  match c with
+  | none => none
+  | some c => if c.hasData then some c else none
+
+theorem reload_cap (r : PeerRec) : (reload r).cap = norm r.cap := by
+  unfold reload norm; cases r.cap <;> rfl
+
+theorem norm_norm (c : Option Cap) : norm (norm c) = norm c := by
+  unfold norm
+  cases c with
+  | none => rfl
+  | some c => by_cases h : c.hasData = true <;> simp [h]
+
+/-- merging looks at the stored capability only through what a reader sees of it -/
+theorem merge_norm (old : Option Cap) (c : Cap) : merge (norm old) c = merge old c := by
+  cases old with
+  | none => rfl
+  | some l =>
+    unfold norm
+    by_cases h : l.hasData = true
+    · simp [h]
+    · have hv : l.version = 0 := by
+        unfold Cap.hasData at h
+        simp at h
+        exact h.1.1.1
+      simp [h, merge, hv]
+
+def SameCaps (s s' : St) : Prop :=
+  s.now = s'.now ∧ s.suspicious = s'.suspicious ∧ ∀ k, capOf s k = capOf s' k
+
+theorem capOf_markStored (s : St) (k k' : String) : capOf (markStored s k) k' = capOf s k' := by
+  unfold markStored
+  cases hl : lookup s.peers k with
+  | none => rfl
+  | some r =>
+    simp only
+    unfold capOf
+    by_cases hk : k' = k
+    · subst hk
+      rw [lookup_put_same, hl]
+      simp [reload_cap, norm_norm]
+    · rw [lookup_put_other _ _ _ _ hk]
+
+theorem capOf_storeCap (s : St) (src : String) (c : Cap) (k : String) :
+    capOf (storeCap s src c) k =
+      if s.suspicious.contains src then capOf s k
+      else if k = src then norm (some (merge (capOf s src) c)) else capOf s k := by
+  unfold storeCap
+  by_cases hs : s.suspicious.contains src = true
+  · rw [if_pos hs, if_pos hs]
+  · rw [if_neg hs, if_neg hs]
+    by_cases hk : k = src
+    · subst hk
+      simp only [if_true]
+      unfold capOf
+      rw [lookup_put_same]
+      simp only [Option.bind_some, reload_cap, norm_norm]
+      congr 2
+      cases hl : lookup s.peers k with
+      | none => simp [newPeer, merge]
+      | some r => simp [reload_cap, merge_norm]
+    · rw [if_neg hk]
+      unfold capOf
+      rw [lookup_put_other _ _ _ _ hk]
+
+theorem sameCaps_storeCap (s s' : St) (src : String) (c : Cap) (h : SameCaps s s') :
+    SameCaps (storeCap s src c) (storeCap s' src c) := by
+  obtain ⟨h1, h2, h3⟩ := h
+  refine ⟨?_, ?_, ?_⟩
+  · unfold storeCap; rw [h2]; split <;> simp [h1]
+  · unfold storeCap; rw [h2]; split <;> simp [h2]
+  · intro k
+    rw [capOf_storeCap, capOf_storeCap, h2, h3 k, h3 src]
+
+theorem sameCaps_recv (s s' : St) (t : MsgType) (src : String) (p : Option Cap) (h : SameCaps s s') :
+    SameCaps (recv s t src p).1 (recv s' t src p).1 := by
+  have h2 := h.2.1
+  unfold recv
+  cases t with
+  | poll => cases p with
+    | none => exact h
+    | some c => exact sameCaps_storeCap _ _ _ _ h
+  | requestPoll =>
+    simp only [h2]
+    by_cases hs : s'.suspicious.contains src = true
+    · rw [if_pos hs, if_pos hs]; exact h
+    · rw [if_neg hs, if_neg hs]
+      cases p with
+      | none => exact h
+      | some c => exact sameCaps_storeCap _ _ _ _ h
+
+theorem sameCaps_markStored (s s' : St) (k : String) (h : SameCaps s s') : SameCaps (markStored s k) s' := by
+  obtain ⟨h1, h2, h3⟩ := h
+  refine ⟨?_, ?_, fun k' => by rw [capOf_markStored]; exact h3 k'⟩
+  · unfold markStored; split <;> simp [h1]
+  · unfold markStored; split <;> simp [h2]
+
+def IlOp.isRecv : IlOp → Bool
+  | .recv _ _ _ => true
+  | _ => false
+
+theorem sameCaps_runIl (ops : List IlOp) : ∀ (s s' : St), SameCaps s s' →
+    SameCaps (runIl s ops).1 (runIl s' (ops.filter IlOp.isRecv)).1 := by
+  induction ops with
+  | nil => intro s s' h; exact h
+  | cons op rest ih =>
+    intro s s' h
+    cases op with
+    | recv t src p =>
+      simp only [List.filter_cons, IlOp.isRecv, if_true, runIl, ilStep]
+      exact ih _ _ (sameCaps_recv _ _ _ _ _ h)
+    | mark k =>
+      simp only [List.filter_cons, IlOp.isRecv, Bool.false_eq_true, if_false, runIl, ilStep]
+      exact ih _ _ (sameCaps_markStored _ _ _ h)
+    | send k t =>
+      simp only [List.filter_cons, IlOp.isRecv, Bool.false_eq_true, if_false, runIl, ilStep]
+      exact ih _ _ h
+
+/-- WHATEVER the interleaving of a round's sends and poll-time records with the messages handled meanwhile —
+    any number of either, in any order — every peer's stored capability is the one the handled messages
+    alone produce, in their order: the round never takes a received capability back.  With
+    `C28_merge_history` the stored capability is therefore the most recent poll (unless it advertised a
+    lower version) under every schedule. -/
+theorem C28_marks_never_change_capabilities (s : St) (ops : List IlOp) (k : String) :
+    capOf (runIl s ops).1 k = capOf (runIl s (ops.filter IlOp.isRecv)).1 k :=
+  (sameCaps_runIl ops s s ⟨rfl, rfl, fun _ => rfl⟩).2.2 k
+
+/-- the code before fix 55c208f wrote the copy loaded before the send: the peer's version-7 poll handled
+    during the send is gone after the round (the schedule the C28 monitor replays on the real code) -/
+theorem C28_snapshot_mark_loses_poll :
+    let c6 : Cap := ⟨6, [.btc], true, [100, 0, 0, 0]⟩
+    let c7 : Cap := ⟨7, [.btc, .lbtc], true, [777, 0, 0, 0]⟩
+    let r6 : PeerRec := ⟨some c6, .active, none, some 5⟩
+    let s : St := ⟨[("02ab", r6)], [], 10, [], []⟩
+    capOf (markSnapshot (recv s .poll "02ab" (some c7)).1 "02ab" r6) "02ab" = some c6
+    ∧ capOf (markStored (recv s .poll "02ab" (some c7)).1 "02ab") "02ab" = some c7 := by
+  decide
+
+/-- key order of the table (bbolt iterates a bucket in key order) -/
+def Sorted (ps : List (String × PeerRec)) : Prop := ps.Pairwise fun a b => a.1 < b.1
+
+theorem put_append_mid (pre rest : List (String × PeerRec)) (k : String) (r r' : PeerRec)
+    (h : ∀ a ∈ pre, a.1 < k) : put (pre ++ (k, r) :: rest) k r' = pre ++ (k, r') :: rest := by
+  induction pre with
+  | nil => simp [put]
+  | cons e pre ih =>
+    obtain ⟨k', r0⟩ := e
+    have hlt : k' < k := h (k', r0) (by simp)
+    have h1 : ¬ k = k' := fun e => by subst e; exact String.lt_irrefl _ hlt
+    have h2 : ¬ k < k' := fun e => String.lt_irrefl _ (String.lt_trans e hlt)
+    simp only [List.cons_append, put, h1, h2, if_false]
+    rw [ih (fun a ha => h a (by simp [ha]))]
+
+theorem lookup_append_mid (pre rest : List (String × PeerRec)) (k : String) (r : PeerRec)
+    (h : ∀ a ∈ pre, a.1 < k) : lookup (pre ++ (k, r) :: rest) k = some r := by
+  induction pre with
+  | nil => simp [lookup]
+  | cons e pre ih =>
+    obtain ⟨k', r0⟩ := e
+    have hlt : k' < k := h (k', r0) (by simp)
+    have h1 : (k' == k) = false := by
+      simp; intro e; subst e; exact String.lt_irrefl _ hlt
+    have := ih (fun a ha => h a (by simp [ha]))
+    unfold lookup at *
+    simp only [List.cons_append, List.find?_cons, h1]
+    exact this
+
+theorem pollKnown_congr (cfg : Cfg) (force : Bool) (fails : List String) (ps : List (String × PeerRec)) (s1 s2 : St)
+    (hn : s1.now = s2.now) (hsu : s1.suspicious = s2.suspicious) :
+    pollKnown cfg s1 force fails ps = pollKnown cfg s2 force fails ps := by
+  induction ps with
+  | nil => rfl
+  | cons e rest ihr => obtain ⟨k0, r0⟩ := e; unfold pollKnown; rw [ihr, hn, hsu]
+
+theorem runIl_known_none (cfg : Cfg) (force : Bool) (fails : List String) (ps : List (String × PeerRec)) :
+    ∀ (pre : List (String × PeerRec)) (s : St), s.peers = pre ++ ps → Sorted (pre ++ ps) →
+      runIl s (knownSchedule cfg s.now s.suspicious force fails none ps) =
+        ({ s with peers := pre ++ (pollKnown cfg s force fails ps).1 }, (pollKnown cfg s force fails ps).2) := by
+  induction ps with
+  | nil =>
+    intro pre s hs _
+    simp only [knownSchedule, runIl, pollKnown]
+    rw [← hs]
+  | cons e rest ih =>
+    intro pre s hs hsorted
+    obtain ⟨k, r⟩ := e
+    have hs' : s.peers = (pre ++ [(k, r)]) ++ rest := by rw [hs]; simp
+    have hsorted' : Sorted ((pre ++ [(k, r)]) ++ rest) := by
+      have : (pre ++ [(k, r)]) ++ rest = pre ++ (k, r) :: rest := by simp
+      rw [this]; exact hsorted
+    have hpre : ∀ a ∈ pre, a.1 < k := by
+      intro a ha
+      have := (List.pairwise_append.mp hsorted).2.2 a ha (k, r) (by simp)
+      exact this
+    have keep := ih (pre ++ [(k, r)]) s hs' hsorted'
+    unfold knownSchedule pollKnown
+    rcases hp : pollKnown cfg s force fails rest with ⟨rest', sent⟩
+    rw [hp] at keep
+    simp only at keep ⊢
+    by_cases c1 : (!force && !shouldPoll cfg s.now r) = true
+    · rw [if_pos c1, if_pos c1, keep]; simp
+    · rw [if_neg c1, if_neg c1]
+      by_cases c2 : s.suspicious.contains k = true
+      · rw [if_pos c2, if_pos c2, keep]; simp
+      · rw [if_neg c2, if_neg c2]
+        by_cases c3 : fails.contains k = true
+        · rw [if_pos c3, if_pos c3, keep]; simp
+        · rw [if_neg c3, if_neg c3]
+          simp only [duringOps, List.nil_append, runIl, ilStep, List.nil_append]
+          have hm : markStored s k = { s with peers := pre ++ (k, reload { r with lastPoll := some s.now }) :: rest } := by
+            unfold markStored
+            rw [hs, lookup_append_mid _ _ _ _ hpre]
+            simp only
+            rw [put_append_mid _ _ _ _ _ hpre]
+          rw [hm]
+          have hs2 : ({ s with peers := pre ++ (k, reload { r with lastPoll := some s.now }) :: rest } : St).peers
+              = (pre ++ [(k, reload { r with lastPoll := some s.now })]) ++ rest := by simp
+          have hsorted2 : Sorted ((pre ++ [(k, reload { r with lastPoll := some s.now })]) ++ rest) := by
+            have e1 : (pre ++ [(k, reload { r with lastPoll := some s.now })]) ++ rest
+                = pre ++ (k, reload { r with lastPoll := some s.now }) :: rest := by simp
+            rw [e1]
+            unfold Sorted at *
+            rw [List.pairwise_append] at *
+            refine ⟨hsorted.1, ?_, ?_⟩
+            · have := hsorted.2.1
+              rw [List.pairwise_cons] at *
+              exact ⟨fun a ha => this.1 a ha, this.2⟩
+            · intro a ha b hb
+              rcases List.mem_cons.mp hb with hb | hb
+              · subst hb; exact hpre a ha
+              · exact hsorted.2.2 a ha b (by simp [hb])
+          have := ih (pre ++ [(k, reload { r with lastPoll := some s.now })])
+            { s with peers := pre ++ (k, reload { r with lastPoll := some s.now }) :: rest } hs2 hsorted2
+          simp only at this
+          rw [pollKnown_congr cfg force fails rest
+            { s with peers := pre ++ (k, reload { r with lastPoll := some s.now }) :: rest } s rfl rfl, hp] at this
+          rw [this]
+          simp
+
+/-- with nothing handled during the round, the round in steps IS the atomic round the other theorems and
+    the peersync slice's `sync.round` speak about -/
+theorem C28_round_in_steps_refines (cfg : Cfg) (s : St) (force : Bool) (fails : List String) (lf : Bool)
+    (h : Sorted s.peers) : roundIl cfg s force fails lf none = round cfg s force fails lf := by
+  have := runIl_known_none cfg force fails s.peers [] s (by simp) (by simpa using h)
+  unfold roundIl round
+  rw [this]
+  rcases pollKnown cfg s force fails s.peers with ⟨peers', sent1⟩
+  cases lf <;> simp
+
+theorem mem_put (ps : List (String × PeerRec)) (k : String) (r : PeerRec) (a : String × PeerRec)
+    (h : a ∈ put ps k r) : a.1 = k ∨ a ∈ ps := by
+  induction ps with
+  | nil => simp [put] at h; left; rw [h]
+  | cons e rest ih =>
+    obtain ⟨k', r'⟩ := e
+    unfold put at h
+    by_cases h1 : k = k'
+    · rw [if_pos h1] at h
+      rcases List.mem_cons.mp h with h | h
+      · left; rw [h]
+      · right; simp [h]
+    · rw [if_neg h1] at h
+      by_cases h2 : k < k'
+      · rw [if_pos h2] at h
+        rcases List.mem_cons.mp h with h | h
+        · left; rw [h]
+        · right; exact h
+      · rw [if_neg h2] at h
+        rcases List.mem_cons.mp h with h | h
+        · right; simp [h]
+        · rcases ih h with h | h
+          · left; exact h
+          · right; simp [h]
+
+theorem put_sorted (ps : List (String × PeerRec)) (k : String) (r : PeerRec) (h : Sorted ps) : Sorted (put ps k r) := by
+  induction ps with
+  | nil => simp [put, Sorted]
+  | cons e rest ih =>
+    obtain ⟨k', r'⟩ := e
+    unfold Sorted at h ih ⊢
+    rw [List.pairwise_cons] at h
+    unfold put
+    by_cases h1 : k = k'
+    · rw [if_pos h1]
+      rw [List.pairwise_cons]
+      exact ⟨fun b hb => by rw [h1]; exact h.1 b hb, h.2⟩
+    · rw [if_neg h1]
+      by_cases h2 : k < k'
+      · rw [if_pos h2]
+        rw [List.pairwise_cons, List.pairwise_cons]
+        refine ⟨?_, h.1, h.2⟩
+        intro b hb
+        rcases List.mem_cons.mp hb with hb | hb
+        · rw [hb]; exact h2
+        · exact String.lt_trans h2 (h.1 b hb)
+      · rw [if_neg h2]
+        have h3 : k' < k := Decidable.byContradiction fun hn =>
+          h1 (String.le_antisymm (String.not_lt.mp hn) (String.not_lt.mp h2))
+        rw [List.pairwise_cons]
+        refine ⟨?_, ih h.2⟩
+        intro b hb
+        rcases mem_put _ _ _ _ hb with hb | hb
+        · rw [hb]; exact h3
+        · exact h.1 b hb
+
+theorem sorted_of_keys (ps qs : List (String × PeerRec)) (hk : qs.map (·.1) = ps.map (·.1)) (h : Sorted ps) : Sorted qs := by
+  unfold Sorted at *
+  have h1 : (ps.map (·.1)).Pairwise (· < ·) := List.pairwise_map.mpr h
+  rw [← hk] at h1
+  exact List.pairwise_map.mp h1
+
+theorem pollKnown_keys (cfg : Cfg) (s : St) (force : Bool) (fails : List String) (ps : List (String × PeerRec)) :
+    (pollKnown cfg s force fails ps).1.map (·.1) = ps.map (·.1) := by
+  induction ps with
+  | nil => rfl
+  | cons e rest ih =>
+    obtain ⟨k, r⟩ := e
+    unfold pollKnown
+    rcases hp : pollKnown cfg s force fails rest with ⟨rest', sent⟩
+    rw [hp] at ih
+    simp only at ih ⊢
+    split
+    · simp [ih]
+    · split
+      · simp [ih]
+      · split <;> simp [ih]
+
+theorem sorted_storeCap (s : St) (src : String) (c : Cap) (h : Sorted s.peers) : Sorted (storeCap s src c).peers := by
+  unfold storeCap
+  split
+  · exact h
+  · exact put_sorted _ _ _ h
+
+theorem sorted_recv (s : St) (t : MsgType) (src : String) (p : Option Cap) (h : Sorted s.peers) :
+    Sorted (recv s t src p).1.peers := by
+  unfold recv
+  cases t with
+  | poll => cases p with
+    | none => exact h
+    | some c => exact sorted_storeCap _ _ _ h
+  | requestPoll =>
+    simp only
+    split
+    · exact h
+    · cases p with
+      | none => exact h
+      | some c => exact sorted_storeCap _ _ _ h
+
+/-- the table stays in key order under every operation of the model, so `C28_round_in_steps_refines`
+    applies in every reachable state -/
+theorem C28_sorted_invariant (cfg : Cfg) (s : St) (h : Sorted s.peers) :
+    (∀ t src p, Sorted (recv s t src p).1.peers)
+    ∧ (∀ force fails lf, Sorted (round cfg s force fails lf).1.peers)
+    ∧ (∀ lf, Sorted (cleanup cfg s lf).peers)
+    ∧ Sorted (restart s).peers
+    ∧ (∀ k, Sorted (markStored s k).peers) := by
+  refine ⟨fun t src p => sorted_recv _ _ _ _ h, ?_, ?_, ?_, ?_⟩
+  · intro force fails lf
+    have hk := pollKnown_keys cfg s force fails s.peers
+    unfold round
+    rcases hp : pollKnown cfg s force fails s.peers with ⟨peers', sent1⟩
+    rw [hp] at hk
+    simp only at hk ⊢
+    cases lf <;> simp only [if_true, Bool.false_eq_true, if_false] <;> exact sorted_of_keys _ _ hk h
+  · intro lf
+    unfold cleanup
+    cases lf
+    · simp only [Bool.false_eq_true, if_false]
+      apply sorted_of_keys (s.peers.filter fun e => s.connected.contains e.1 || !isExpired cfg s.now e.2)
+      · rw [List.map_map]; congr 1; funext e; simp only [Function.comp]; split <;> rfl
+      · exact List.Pairwise.filter _ h
+    · exact h
+  · unfold restart
+    apply sorted_of_keys s.peers _ _ h
+    rw [List.map_map]; rfl
+  · intro k
+    unfold markStored
+    split
+    · exact h
+    · exact put_sorted _ _ _ h
+
+theorem runIl_append (s : St) (a b : List IlOp) : (runIl s (a ++ b)).1 = (runIl (runIl s a).1 b).1 := by
+  induction a generalizing s with
+  | nil => rfl
+  | cons op rest ih => simp only [List.cons_append, runIl]; exact ih _
+
+theorem knownSchedule_recvs (cfg : Cfg) (now : Nat) (susp : List String) (force : Bool) (fails : List String)
+    (t : MsgType) (src : String) (p : Option Cap) (ps : List (String × PeerRec)) :
+    ∃ n, (knownSchedule cfg now susp force fails (some (t, src, p)) ps).filter IlOp.isRecv
+      = List.replicate n (IlOp.recv t src p) := by
+  induction ps with
+  | nil => exact ⟨0, rfl⟩
+  | cons e rest ih =>
+    obtain ⟨k, r⟩ := e
+    obtain ⟨n, hn⟩ := ih
+    unfold knownSchedule
+    split
+    · exact ⟨n, hn⟩
+    · split
+      · exact ⟨n, hn⟩
+      · split
+        · exact ⟨n, hn⟩
+        · by_cases hk : src = k
+          · refine ⟨n + 1, ?_⟩
+            simp only [duringOps, hk, if_true, List.filter_cons, IlOp.isRecv, Bool.false_eq_true, if_false,
+              List.cons_append, List.nil_append]
+            rw [hk] at hn
+            rw [hn, List.replicate_succ]
+          · refine ⟨n, ?_⟩
+            simp only [duringOps, hk, if_false, List.filter_cons, IlOp.isRecv, Bool.false_eq_true,
+              List.nil_append]
+            exact hn
+
+/-- the executable round with a message handled during a send to its source (the `sync.roundduring`
+    operation of the peersync slice, run against the real poller with the real handler called from inside
+    the send): every capability after the round is what handling that message alone — as many times as
+    the round sent to its source — leaves -/
+theorem C28_round_with_message (cfg : Cfg) (s : St) (force : Bool) (fails : List String) (lf : Bool)
+    (t : MsgType) (src : String) (p : Option Cap) :
+    ∃ n, ∀ k, capOf (roundIl cfg s force fails lf (some (t, src, p))).1 k
+        = capOf (runIl s (List.replicate n (IlOp.recv t src p))).1 k := by
+  obtain ⟨n, hn⟩ := knownSchedule_recvs cfg s.now s.suspicious force fails t src p s.peers
+  have h1 := sameCaps_runIl (knownSchedule cfg s.now s.suspicious force fails (some (t, src, p)) s.peers) s s
+    ⟨rfl, rfl, fun _ => rfl⟩
+  rw [hn] at h1
+  unfold roundIl
+  cases lf
+  · simp only [Bool.false_eq_true, if_false]
+    split
+    · refine ⟨n + 1, fun k => ?_⟩
+      rw [List.replicate_succ', runIl_append]
+      simp only [runIl, ilStep]
+      have h2 : ∀ lr, SameCaps
+          { (runIl s (knownSchedule cfg s.now s.suspicious force fails (some (t, src, p)) s.peers)).1 with lastReq := lr }
+          (runIl s (List.replicate n (IlOp.recv t src p))).1 := fun _ => ⟨h1.1, h1.2.1, fun k' => h1.2.2 k'⟩
+      exact (sameCaps_recv _ _ t src p (h2 _)).2.2 k
+    · exact ⟨n, fun k => h1.2.2 k⟩
+  · simp only [if_true]
+    exact ⟨n, fun k => h1.2.2 k⟩
+
 -- non-vacuity and the shape of the rule, on the real intervals (10 s poll, 30 min timeout, 10 min request)
 def cfg0 : Cfg := ⟨10000, 1800000, 600000, 7⟩
 def s0 : St := ⟨[], [], 1000000, ["02aa"], []⟩
@@ -472,5 +918,13 @@ example : (round cfg0 { (round cfg0 { (round cfg0 s0 false [] false).1 with conn
     with connected := ["02aa"], now := 1020000 } false [] false).2 = [("02aa", .requestPoll)] := by decide
 example : mergeAll none [⟨7, [], true, [0,0,0,0]⟩, ⟨6, [.btc], true, [0,0,0,0]⟩, ⟨7, [.lbtc], false, [1,0,0,0]⟩, ⟨5, [], true, [0,0,0,0]⟩]
     = some ⟨7, [.lbtc], false, [1,0,0,0]⟩ := by decide
+
+/-- the schedule of finding 55c208f in the model of the code as it is now: the version-7 poll handled during
+    the send survives the round, and the table used is in key order -/
+def s6 : St := ⟨[("02ab", ⟨some ⟨6, [.btc], true, [100, 0, 0, 0]⟩, .active, none, some 5⟩)], [], 20000, ["02ab"], []⟩
+example : Sorted s6.peers := by simp [Sorted, s6]
+example : capOf (roundIl cfg0 s6 false [] false (some (.poll, "02ab", some ⟨7, [.btc, .lbtc], true, [777, 0, 0, 0]⟩))).1 "02ab"
+    = some ⟨7, [.btc, .lbtc], true, [777, 0, 0, 0]⟩ := by decide
+example : (roundIl cfg0 s6 false [] false (some (.requestPoll, "02ab", none))).2 = [("02ab", .poll), ("02ab", .poll)] := by decide
 
 end PsVerif.Props.C28
